@@ -29,7 +29,17 @@ def run():
              "order, heads anywhere / coinciding / near the tip, build tags on 0-4 commits plus foreign tags and "
              "double tags, 1-3 matching messages (incl. multi-line), 2 search texts (one a prefix of the other), "
              "commit times inside 1 hour .. 29 days, 15 % with clock skew; (3) the 20 histories x texts of "
-             "tests/test_ghist.py. non-trivial = >= 2 branches, >= 1 build and >= 1 matching commit reachable "
+             "tests/test_ghist.py; (4) the search text is taken as it is: exhaustive n=3 with {release/1.0, master}"
+             + (" and {release/1.0, release/1.1, master}" if b.tier == 'thorough' else "") +
+             " for the text 'BUG-1 ' (trailing blank) and three messages per commit ('x', 'BUG-1 fix' containing the "
+             f"text, 'BUG-12' containing only the stripped text); {driver.n_verbatim(b.tier)} seeded cases over the "
+             "DAGs of (2) with the messages rewritten around a search text that is (3 of 4) an id with leading "
+             "and/or trailing whitespace (blank, two blanks, tab, newline) or (1 of 4) an id with pattern characters "
+             "(. * ? [ ] $ ^ | \\d ( )), in another case, or with an inner blank: 1-3 commits contain the text, 1-3 "
+             "others contain only a normalised form of it (the stripped text as a prefix of another id, at the end "
+             "of the message, followed by a different whitespace character, in another case, matching as a "
+             f"pattern); (5) {driver.n_old(b.tier)} seeded cases over the DAGs of (2) with commit times spread over "
+             "31-45 days and every branch head among the commits of the last 29 days. non-trivial = >= 2 branches, >= 1 build and >= 1 matching commit reachable "
              "from a head. Families: " + ', '.join(f"{k}={v}" for k, v in fam.items()),
         exhaustive=False,
         extra={'exhaustive_families': [k for k in fam if k.startswith('small-')]})
@@ -43,7 +53,17 @@ def run():
                   ["branch names are release/<major>.<minor> and master (every numeric-aware order agrees on them; "
                    "BranchName.cmp on other names is a proof-tier obligation)",
                    "a build commit is a commit carrying a tag build_<n>_<branch>_success (the default build detector)",
-                   "all commit times lie within a span of 29 days (no branch is obsolete)",
+                   "commit times: either all within a span of 29 days, or (family old-history) spread over up to 45 "
+                   "days with every branch head at most 29 days older than the newest commit of the repository - no "
+                   "branch is obsolete whichever report-related commit the 30-day cut-off is measured from. Histories "
+                   "in which a head is more than 30 days older than the LATEST report-related commit of the lower-sorted "
+                   "branches but not than the EARLIEST report-related build are not generated: the package's comment "
+                   "(ak/ghist.py, _OBSOLETE_BRANCH_CUTOFF_PERIOD: 'older than latest report-related commit') calls such "
+                   "a branch obsolete while the code (min_rbuild_timestamp) does not, and the property's quantifier "
+                   "excludes histories with obsolete branches, so neither behaviour is demanded there",
+                   "'contains the search text' = Python sub-string containment of the text exactly as passed to "
+                   "make_reports_data (no stripping, case folding or pattern syntax); the empty search text is not "
+                   "generated",
                    "'listed' = RBuild.get_printable_rcommits() of make_reports_data; the printed GHistReport is "
                    "compared with it on every 97th case as a supporting clause",
                    "two parallel tagged sub-branches containing the same commit: either ancestry-minimal build is "
